@@ -10,7 +10,8 @@ def handlers : List (List Sexp → Option Sexp) :=
     Driver.parseHandle,
     Driver.diagramHandle,
     Driver.trimArityHandle,
-    Driver.actionGateHandle ]
+    Driver.actionGateHandle,
+    Driver.threadsHandle ]
 
 def dispatch (line : String) : String :=
   match Sexp.parseAll line with
